@@ -108,14 +108,30 @@ def display_overflow(H):
     H.prove(got == want, f"{which}.inherited_value", detail=f"got {got!r} want {want!r}")
 
 
-@obligation(P, "cascade.handler_table", functions=[F + "_do_not_inherit"])
+@obligation((P, "C04"), "cascade.handler_table", functions=[F + "_do_not_inherit"])
 def handler_table(H):
     """Each presentation attribute is wired to the inheritance its definition requires (SVG 1.1 property index)."""
     T = S._INHERIT_ATTRIB_HANDLERS
     inherited = ("clip-rule", "color", "fill", "fill-rule", "fill-opacity", "stroke", "stroke-width", "stroke-linecap", "stroke-linejoin",
                  "stroke-miterlimit", "stroke-dasharray", "stroke-dashoffset", "stroke-opacity")
+    # by behaviour, not by identity: whatever function the table holds, handing the parent's value down gives the child that value exactly
+    # when the child has none of its own - for EVERY parent value, the property's initial value included (an intermediate ancestor that
+    # resets stroke-dasharray to "none" or stroke-width to "1" overrides what an outer ancestor said)
+    fake_tree.install(H)
+    initial_text = {"clip-rule": "nonzero", "color": "black", "fill": "black", "fill-rule": "nonzero", "fill-opacity": "1", "stroke": "none", "stroke-width": "1", "stroke-linecap": "butt",
+                    "stroke-linejoin": "miter", "stroke-miterlimit": "4", "stroke-dasharray": "none", "stroke-dashoffset": "0", "stroke-opacity": "1"}
     for a in inherited:
-        H.prove(T.get(a) is _inherit_copy, f"table.{a}_is_inherited_by_copy")
+        h = T.get(a)
+        H.prove(h is not None, f"table.{a}_has_a_handler")
+        if h is None:
+            continue
+        ok = True
+        for pv in (initial_text[a], "7"):
+            for own in (None, "3"):
+                child = element(H, "path", {"d": "M0,0"} if own is None else {"d": "M0,0", a: own})
+                _, e = H.catch(h, {a: pv}, child, a)
+                ok = ok and e is None and child.attrib.get(a) == (own if own is not None else pv) and set(child.attrib) <= {"d", a}
+        H.prove(ok, f"table.{a}_is_inherited_by_copy")
     H.prove(T.get("opacity") is _inherit_multiply, "table.opacity_multiplies")
     H.prove(T.get("display") is _inherit_nondefault_display, "table.display_none_is_sticky")
     H.prove(T.get("transform") is _inherit_matrix_multiply, "table.transform_composes")
